@@ -18,3 +18,47 @@ THETA_CONSTS = [
     {"name": "theta_constants_MAX_LG_K", "file": TC, "match": r"const uint8_t MAX_LG_K = ([^;]+);", "ctype": "uint8_t"},
     {"name": "theta_constants_DEFAULT_LG_K", "file": TC, "match": r"const uint8_t DEFAULT_LG_K = ([^;]+);", "ctype": "uint8_t"},
 ]
+
+
+def mul_by_named_constant(names_regex, fn_name="MUL"):
+    """structural rule: `<operand> * <Const>` -> MUL(<operand>, <Const>) and `x *= <Const>;` -> x = MUL(x, <Const>);
+    the left operand is the primary expression immediately before the `*`: an identifier, or a balanced (...) group
+    optionally preceded by the name of the function being called (purely syntactic, no operator/constant changes)."""
+    import re
+    def rule(body):
+        n = 0
+        body, k = re.subn(r"(\b[\w.\[\]]+) \*= (%s);" % names_regex, r"\1 = %s(\1, \2);" % fn_name, body)
+        n += k
+        pat = re.compile(r"\s*\*\s*(%s)\b" % names_regex)
+        pos = 0
+        while True:
+            m = pat.search(body, pos)
+            if not m:
+                break
+            j = m.start() - 1
+            while j >= 0 and body[j].isspace():
+                j -= 1
+            end = j + 1
+            if body[j] == ")":
+                depth = 0
+                while j >= 0:
+                    if body[j] == ")":
+                        depth += 1
+                    elif body[j] == "(":
+                        depth -= 1
+                        if depth == 0:
+                            break
+                    j -= 1
+                start = j
+                while start > 0 and (body[start - 1].isalnum() or body[start - 1] == "_"):
+                    start -= 1
+            else:
+                start = end
+                while start > 0 and (body[start - 1].isalnum() or body[start - 1] in "_.[]"):
+                    start -= 1
+            operand = body[start:end]
+            body = body[:start] + "%s(%s, %s)" % (fn_name, operand, m.group(1)) + body[m.end():]
+            pos = start + len(fn_name) + 1
+            n += 1
+        return body, n
+    return rule
